@@ -354,7 +354,7 @@ V("C13", "sub-matrix from the raw distances", "R13.2", (CLU, "self._distance_mat
 V("C13", "atoms in sorted order", "R13.4", (CLU, "        return self._system[self.indices]", "        return self._system[sorted(self.indices)]"))
 V("C13", "generator kept between calls", "R13.5", (SBC, "        self.rng = np.random.default_rng(seed)\n", "        if not hasattr(self, \"rng\"):\n            self.rng = np.random.default_rng(seed)\n"))
 V("C01", "generator kept between calls", "R01.2", (SBC, "        self.rng = np.random.default_rng(seed)\n", "        if not hasattr(self, \"rng\"):\n            self.rng = np.random.default_rng(seed)\n"))
-V("C01", "enlargement only when the extent exceeds the cell", "R01.14", (SBC, "if max_pos > 1 or min_pos < 0:", "if max_pos - min_pos > 1:"))
+V("C04", "enlargement only when the extent exceeds the cell", "R04.9", (SBC, "if max_pos > 1 or min_pos < 0:", "if max_pos - min_pos > 1:"))
 V("C01", "twin: enlargement test written with the bounds swapped", "silent", (SBC, "if max_pos > 1 or min_pos < 0:", "if min_pos < 0 or max_pos > 1:"))
 V("C09", "wrapper caps the cutoff", "R09.4", (GEO, "    if cell is None:\n        cell = np.eye(3)\n", "    if cell is None:\n        cell = np.eye(3)\n    cutoff = min(cutoff, 0.5 * np.linalg.norm(np.sum(cell, axis=0)))\n"))
 V("C09", "early-out before the component test", "R09.3", (GEO, "    if n_clusters_1x > 1:\n        dim = None\n    else:\n        # 2x2x2 system\n        n_pbc = np.sum(pbc)\n", "    n_pbc = np.sum(pbc)\n    if n_pbc == 0:\n        dim = 0\n    elif n_clusters_1x > 1:\n        dim = None\n    else:\n        # 2x2x2 system\n"))
